@@ -32,9 +32,11 @@
 
 #include "common.h"
 #include "lz_encoder.h"
-#include "lz_decoder.h"
-#include "lzma_decoder.h"
-#include "lzma2_decoder.h"
+// lz_decoder.h and lz_encoder.h both define a type named lzma_lz_options, so the decoder-side internal
+// functions are declared by hand (they are plain extern functions of liblzma.a).
+extern uint64_t lzma_lz_decoder_memusage(size_t dictionary_size);
+extern uint64_t lzma_lzma_decoder_memusage(const void *options);
+extern uint64_t lzma_lzma2_decoder_memusage(const void *options);
 #include "lzma_encoder.h"
 #include "lzma2_encoder.h"
 #include "delta_common.h"
